@@ -6,7 +6,6 @@ import (
 	"math/rand"
 	"strconv"
 	"strings"
-	"unicode"
 	"unicode/utf8"
 
 	"verif/harness/core"
@@ -40,7 +39,7 @@ var floatPool = []float64{0, math.Copysign(0, -1), 1, -1, 1.5, -2.5, 255, 255.5,
 	math.MaxFloat64, math.SmallestNonzeroFloat64, math.NaN(), math.Inf(1), math.Inf(-1), 1e300, -1e19, 9.223372036854775e18, 0.5, 12345678}
 
 var strPool = []string{"", "a", "ab", "hello world", "Hello::wOrld::x", "  padded \t", "é", "日本語", "a'b", `a\b`, `"q"`, "line\nfeed",
-	"tab\there", "\x01ctl", "$var", "�", "x�y", "😀", "ß", "%d %!", "0", "-12", "àÉî::ôU", "::", "a::", "ÿµ", " nbsp ", "ǆemal", "İi", "ﬁ"}
+	"tab\there", "\x01ctl", "$var", "�", "x�y", "😀", "ß", "%d %!", "0", "-12", "àÉî::ôU", "::", "a::", "ÿµ", " nbsp ", "ǆemal", "İi", "ﬁ", "ǅ::ǈx", "ΑΒγδ σς", "привет::МИР", "ᾳ ᾼ", "ⅰⅱ Ⅲ", "ｆｕｌｌ", "𐐨𐐀 deseret", "ſtraße", "Ǉ", "ɐʞ", "ꙁꙀ"}
 
 var badStrPool = []string{"\xff\xfe", "a\xc3", "\xed\xa0\x80"}
 
@@ -92,18 +91,8 @@ func thoroughValues() []sx.Sexp {
 
 // ---- what the Lean model covers (everything else is sent with a leading '@': implementation only) --------------------------
 
-// runes whose case mapping the model knows: ASCII, Latin-1, and everything Go maps to itself
-func caseModelled(s string) bool {
-	for _, r := range s {
-		if r < 0x100 {
-			continue
-		}
-		if unicode.ToUpper(r) != r || unicode.ToLower(r) != r {
-			return false
-		}
-	}
-	return true
-}
+// the model maps case with Go's own table (regenerated from $GOROOT/src/unicode/tables.go): every valid string is modelled
+func caseModelled(s string) bool { return true }
 
 func scalarModelled(e sx.Sexp, d dir) bool {
 	if !d.ok {
@@ -221,10 +210,10 @@ func unParseDir(d dir, letter byte, withoutWidth bool) string {
 		b += "0"
 	}
 	plus := byte(0)
-	if d.space {
-		plus = ' '
-	} else if d.plus {
+	if d.plus {
 		plus = '+'
+	} else if d.space {
+		plus = ' '
 	}
 	if plus != 0 {
 		b += string(plus)
@@ -561,6 +550,15 @@ func gen(g *core.G) {
 		}
 	}
 
+	// (1b) every pool string under the case and trim letters (Go's case table is a regenerated fact of the model)
+	for _, str := range strPool {
+		for _, l := range "cCudt" {
+			for _, fl := range []string{"", "#", "-12.6"} {
+				emitFmt(g, ctx1("kind", "%"+fl+string(l)), vs(str))
+			}
+		}
+	}
+
 	// (2) random (value, directive) samples: mostly documented letters, flags in any order, delimiters, odd widths
 	n := 20000
 	if g.Thorough() {
@@ -618,7 +616,7 @@ func gen(g *core.G) {
 	}
 	for i := 0; i < n; i++ {
 		sp := dirSpec{flags: "", width: -1, prec: -1, letter: backLetters[r.Intn(len(backLetters))]}
-		for _, fl := range "+#0-" {
+		for _, fl := range "+#0- " {
 			if r.Intn(4) == 0 {
 				sp.flags += string(fl)
 			}
@@ -645,7 +643,8 @@ func gen(g *core.G) {
 
 	// (4) malformed directives (outside the quantifier; model and implementation must still agree on the error)
 	bad := []string{"", "%", "d", "%5", "%.d", "%5.d", "%00d", "%--5d", "%++d", "%  d", "%[{d", "%<(s", "%[[a", "%|<|a", "%05", "%5.3", "%d ", " %d",
-		"%dd", "%5.3.2d", "%é", "%1$d", "%*d", "%\td", "%\n5d", "%\t\td", "%\f\rs", "%#\tx", "%0-+ #d", "%-0# +12.8x", "%0d", "%010d", "%.00d", "%.08d", "%100d", "%5.100d"}
+		"%dd", "%5.3.2d", "%é", "%1$d", "%*d", "%\td", "%\n5d", "%\t\td", "%\f\rs", "%#\tx", "%0-+ #d", "%-0# +12.8x", "%0d", "%010d", "%.00d", "%.08d", "%100d", "%5.100d",
+		"%1000001d", "%10000010d", "%.1000001s", "%99999999999999999999d", "%5.99999999999999999999x", "%1000000.1000001b"}
 	for _, d := range bad {
 		for _, v := range []sx.Sexp{vi(5), vs("ab"), va(vi(1)), vf(1.5), vu} {
 			emitFmt(g, ctx1("kind", d), v)
